@@ -214,6 +214,17 @@ class Env:
             p.set(arraymap, "open", arraymap_open)
             # the process may be pinned to fewer CPUs than are online (taskset, cpuset):
             # whatever asks the OS for that gets the simulated answer
+            # resource limits, should the library ask: the classic 64 kB of locked memory
+            # (what map memory was charged against before Linux 5.11), which may be raised
+            rl = {"memlock": (65536, -1)}
+            if hasattr(bpf, "getrlimit"):
+                p.set(bpf, "getrlimit", lambda what: rl["memlock"])
+            if hasattr(bpf, "setrlimit"):
+                def setrlimit(what, limits):
+                    rl["memlock"] = tuple(limits)
+                    self.world.count("os/setrlimit")
+                p.set(bpf, "setrlimit", setrlimit)
+
             def n_affinity():
                 return self.affinity_cpus or self.online_cpus
             import os as real_os_module
